@@ -10,7 +10,7 @@ from common import clist, cN, cbool
 ID = "C07"
 IMPORTS = ("From Boltons Require Import Lib.Prelude Lib.C07_Str Spec.C07_Spec Gen.C07_Gen "
            "Model.C07_Model Check.C07_Check.\nOpen Scope N_scope.")
-CASE_TYPE = "c07_case"
+CASE_TYPE = "c07_case2"
 VERDICT = "c07_verdict"
 EXPLAIN = "c07_explain"
 CASES_PER_FILE = 120
@@ -41,7 +41,7 @@ PORTS = ['', '', '', ':8080', ':81', ':65535', ':80', ':0', ':0443', ':']
 AS_MODES = [0, 0, 0, 1, 1, 2, 3, 4, 5]
 # components whose DECODED form still looks percent-encoded (double encoding), escapes of delimiters, of plain
 # characters, of dots, and things that only look like escapes
-PCT_SEGS = ['100%2525', 'a%2Fb', '%41', '%zz', 'x%', '%252e%252e', '%2e%2e', '%2E', 'q%3Fr', 'h%23i', '%25', '%5Bz%5D',
+PCT_SEGS = ['x%2Fy', 'q%3Fr', '%5Bz%5D', '100%2525', 'a%2Fb', '%41', '%zz', 'x%', '%252e%252e', '%2e%2e', '%2E', 'q%3Fr', 'h%23i', '%25', '%5Bz%5D',
             '%2525', '%25252F']
 PCT_QUERIES = ['to=http%253A%252F%252Fb', 'k=%26', 'k%3Dx=1', 'a%2525=b%25', 'k=%2525&k=%25', 'p=%2B&s=%3B', 'z%25']
 PCT_FRAGS = ['f%2523', '%23', 'x%25y', '%2541', 's%252F']
@@ -148,6 +148,34 @@ def _climb(rng):
     return p if not p.startswith('/') else '.' + p
 
 
+# references (and base components) with percent-ENCODED DELIMITERS of their own component: these print as they
+# were written (normal form), so they can be passed as str as well
+DELIM_SEGS = ['x%2Fy', 'q%3Fr', 'h%23i', '%5Bz%5D', 'a%2Fb%2Fc', '%2F', '..%2F..', '.%2F', '%23']
+DELIM_QUERIES = ['k=%26v', 'k%3Dx=1', 'a=%23&b=%26', 'k=%5B1%5D', 'p=%2B&s=%3B']
+DELIM_FRAGS = ['%23x', 'a%5Bb%5D']
+
+
+def _delim_ref(rng):
+    form = rng.choice(['abs', 'abs', 'rel', 'rel', 'query', 'frag', 'dots'])
+    segs = [rng.choice(DELIM_SEGS) if rng.random() < 0.7 else rng.choice(['a', '..', '.', '', 'b']) for _ in range(rng.randint(1, 3))]
+    q = ('?' + rng.choice(DELIM_QUERIES)) if rng.random() < 0.4 else ''
+    f = ('#' + rng.choice(DELIM_FRAGS)) if rng.random() < 0.3 else ''
+    if form == 'query':
+        return '?' + rng.choice(DELIM_QUERIES) + f
+    if form == 'frag':
+        return '#' + rng.choice(DELIM_FRAGS)
+    p = '/'.join(segs)
+    if form == 'abs':
+        p = '/' + p
+        while p.startswith('//'):
+            p = p[1:]
+    elif form == 'dots':
+        p = '../' + p
+    elif p.startswith('/') or p == '':
+        p = './' + p
+    return p + q + f
+
+
 PCT_REFS = ['x%2525/y', '../%2525', '/p%252Fq/r', 'g?k=%2525', '?to=http%253A%252F%252Fb', '#f%2523', 'a%2Fb/%41',
             'http://b/100%2525', 'https://u@h.x:8080/a/../%2525?k=%2526#%2523', 'http://example.com/%252e%252e/x']
 
@@ -231,6 +259,9 @@ def generate(rng, tier, n):
             continue
         c = {"base": b, "ref1": _ref(rng), "as_url1": rng.choice(AS_MODES),
              "ref2": _ref(rng), "as_url2": rng.choice(AS_MODES), "unrooted": rng.random() < 0.15}
+        if rng.random() < 0.10:
+            k = rng.choice(["1", "2"])
+            c["ref" + k] = _delim_ref(rng)
         if rng.random() < 0.06:
             # a reference whose decoded components contain '%': only meaningful as a URL OBJECT (what it
             # denotes is what it prints; the text it was parsed from is not in normal form)
@@ -265,12 +296,19 @@ def run_impl(case):
     before = base.to_text()
     r1 = _as_arg(URL, case["ref1"], case["as_url1"])
     ref1t = r1 if isinstance(r1, str) else r1.to_text()      # the reference as handed over
+    ref1f = (URL(r1) if isinstance(r1, str) else r1).to_text(full_quote=True)
+    before_full = base.to_text(full_quote=True)
     n1 = base.navigate(r1)
     nav1 = n1.to_text()
+    nav1_full = n1.to_text(full_quote=True)
+    parts1 = list(n1.path_parts)
     r2 = _as_arg(URL, case["ref2"], case["as_url2"])
     ref2t = r2 if isinstance(r2, str) else r2.to_text()
+    ref2f = (URL(r2) if isinstance(r2, str) else r2).to_text(full_quote=True)
     n2 = n1.navigate(r2)
     nav2 = n2.to_text()
+    nav2_full = n2.to_text(full_quote=True)
+    parts2 = list(n2.path_parts)
     # independence: mutate everything reachable from the second result, re-read the first ...
     _mutate(n2)
     nav1_again = n1.to_text()
@@ -288,7 +326,9 @@ def run_impl(case):
     ur.normalize()
     nr2 = ur.to_text()
     return {"before": before, "nav1": nav1, "nav1_again": nav1_again, "after": after, "nav2": nav2,
-            "nb1": nb1, "nb2": nb2, "nr1": nr1, "nr2": nr2, "ref1t": ref1t, "ref2t": ref2t}
+            "nb1": nb1, "nb2": nb2, "nr1": nr1, "nr2": nr2, "ref1t": ref1t, "ref2t": ref2t,
+            "parts1": parts1, "parts2": parts2,
+            "full": [before_full, ref1f, nav1_full, ref2f, nav2_full]}
 
 
 def _as_arg(URL, text, mode):
@@ -344,10 +384,16 @@ FIELDS = ["before", "nav1", "nav1_again", "after", "nav2", "nb1", "nb2", "nr1", 
 
 
 def to_coq(case, obs):
-    return "mkCase %s %s %s %s %s %s (mkObs %s)" % (
+    return "(mkCase %s %s %s %s %s %s (mkObs %s %s %s), mkFull %s)" % (
         _codes(case["base"]), cbool(bool(case.get("unrooted"))), _codes(case["ref1"]), cbool(bool(case["as_url1"])),
         _codes(case["ref2"]), cbool(bool(case["as_url2"])),
-        " ".join(_codes(obs[k]) for k in FIELDS))
+        " ".join(_codes(obs[k]) for k in FIELDS),
+        clist(_codes(p) for p in obs["parts1"]), clist(_codes(p) for p in obs["parts2"]),
+        " ".join(_codes(t) for t in obs["full"]))
+
+
+def _strip(obs):
+    return obs
 
 
 def corrupt(case, obs):
